@@ -409,7 +409,7 @@ func piece_batchNoFit(ef, wf *ast.File) (string, error) {
 				return "", fmt.Errorf("add: %v", err)
 			}
 			sb.WriteString("/-- writer.go (*writeBatch).add refuses the message (returns false) exactly when this holds -/\n")
-			sb.WriteString("def batchNoFit (size bytes msz maxBytes : Nat) : Bool := " + c + "\n\n")
+			sb.WriteString("def batchNoFit (size bytes msz maxSize maxBytes : Nat) : Bool := " + c + "\n\n")
 			done = true
 			break
 		}
@@ -488,7 +488,7 @@ func extractLogic(repo string) (string, []string, error) {
 		{"makeErrorNil", "def makeErrorNil (code : Int) : Bool := untranslated code", piece_makeErrorNil},
 		{"chooseTopic", "def chooseTopic (w m : String) : Option String := if untranslated (w, m) then none else none", piece_chooseTopic},
 		{"batchFull", "def batchFull (size bytes maxSize maxBytes : Nat) : Bool := untranslated (size, bytes, maxSize, maxBytes)", piece_batchFull},
-		{"batchNoFit", "def batchNoFit (size bytes msz maxBytes : Nat) : Bool := untranslated (size, bytes, msz, maxBytes)", piece_batchNoFit},
+		{"batchNoFit", "def batchNoFit (size bytes msz maxSize maxBytes : Nat) : Bool := untranslated (size, bytes, msz, maxSize, maxBytes)", piece_batchNoFit},
 		{"tooLarge", "def tooLarge (msz batchBytes : Nat) : Bool := untranslated (msz, batchBytes)", piece_tooLarge},
 		{"defaults", "def effBatchSize (n : Nat) : Nat := if untranslated n then 0 else 0\ndef effBatchBytes (n : Nat) : Nat := if untranslated n then 0 else 0\ndef effMaxAttempts (n : Nat) : Nat := if untranslated n then 0 else 0", piece_defaults},
 		{"timerArm", "def timerArmSites : List String := []", piece_timerArm},
